@@ -1064,6 +1064,8 @@ class Compiler:
         old_in_function = self._in_function
         old_free_vars = self._free_vars
         old_cell_vars = self._cell_vars
+        old_source_map = self.source_map
+        self.source_map = {}  # bytecode positions are per function
 
         # Push current locals to outer scope stack (for closure resolution)
         if self._in_function:
@@ -1109,6 +1111,7 @@ class Compiler:
             num_locals=len(self.locals),
             free_vars=self._free_vars[:],
             cell_vars=self._cell_vars[:],
+            source_map=self.source_map,
         )
 
         # Pop outer scope if we pushed it
@@ -1123,6 +1126,7 @@ class Compiler:
         self._in_function = old_in_function
         self._free_vars = old_free_vars
         self._cell_vars = old_cell_vars
+        self.source_map = old_source_map
 
         return func
 
@@ -1149,6 +1153,8 @@ class Compiler:
         old_in_function = self._in_function
         old_free_vars = self._free_vars
         old_cell_vars = self._cell_vars
+        old_source_map = self.source_map
+        self.source_map = {}  # bytecode positions are per function
 
         # Push current locals to outer scope stack (for closure resolution)
         if self._in_function:
@@ -1207,6 +1213,7 @@ class Compiler:
             num_locals=len(self.locals),
             free_vars=self._free_vars[:],
             cell_vars=self._cell_vars[:],
+            source_map=self.source_map,
         )
 
         # Pop outer scope if we pushed it
@@ -1221,6 +1228,7 @@ class Compiler:
         self._in_function = old_in_function
         self._free_vars = old_free_vars
         self._cell_vars = old_cell_vars
+        self.source_map = old_source_map
 
         return func
 
